@@ -543,7 +543,7 @@ func (m *Manager) PruneBlocks(height uint64) {
 	m.mu.Lock()
 	defer m.mu.Unlock()
 
-	for h := height; h > 0; h-- {
+	for h := min(height, m.tipState.Index.Height+1); h > 0; h-- {
 		index, ok := m.store.BestIndex(h - 1)
 		if !ok {
 			break // block does not exist
